@@ -142,8 +142,15 @@ def run_xlsx(form, pretty, stem, want_survey):
                 ws = wb.create_sheet(s)
                 cols = impl.headers_of(form[s], form.get(s + "_cols"))
                 ws.append(cols)
-                for r in form[s]:
-                    ws.append([r.get(c) if r.get(c) not in (None, "") else None for c in cols])
+                for i, r in enumerate(form[s]):
+                    for j, c in enumerate(cols):
+                        v = r.get(c)
+                        if v in (None, ""):
+                            continue
+                        cell = ws.cell(row=i + 2, column=j + 1)
+                        cell.value = v
+                        if isinstance(v, str) and v.startswith("="):
+                            cell.data_type = "s"  # text that starts with "=" is text, not a formula
         p = d / f"{stem}.xlsx"
         try:
             wb.save(p)
